@@ -9,7 +9,7 @@ usage: tools/keepbenign.py <dir with patch.diff + meta.json> <name>
 """
 import json, os, shutil, subprocess, sys, tempfile
 
-ENV = dict(os.environ, GOFLAGS="-mod=mod", GOPROXY="off", GOSUMDB="off", GOTOOLCHAIN="local", CRS_NOSELFTEST="1")
+ENV = dict(os.environ, GOFLAGS="-mod=mod", GOPROXY="off", GOSUMDB="off", GOTOOLCHAIN="local", CRS_NOSELFTEST="1", CRS_NOREPLAY="1")
 ENV.pop("GOWORK", None)
 
 def sh(cmd, cwd, timeout=900):
